@@ -159,6 +159,13 @@ func (w *Worker) tryRegionMerge(fr *frame, x *ssa.If, cnd *Term, J *ssa.BasicBlo
 			return false
 		}
 	}
+	// reserve the decision slot before merging: regionMerge may take outer
+	// decisions (choose between merged state and panics) which must follow it
+	slot := -1
+	if !replaying {
+		slot = len(d.taken)
+		d.taken = append(d.taken, decMergeOK)
+	}
 	ok := w.regionMerge(fr, x, cnd, J)
 	if replaying {
 		if !ok {
@@ -166,10 +173,8 @@ func (w *Worker) tryRegionMerge(fr *frame, x *ssa.If, cnd *Term, J *ssa.BasicBlo
 		}
 		return true
 	}
-	if ok {
-		d.taken = append(d.taken, decMergeOK)
-	} else {
-		d.taken = append(d.taken, decMergeFail)
+	if !ok {
+		d.taken[slot] = decMergeFail
 		w.mergeFails[x]++
 	}
 	return ok
